@@ -1,6 +1,6 @@
 (** [sx -> sx] entry points of the Conc layer for the correspondence runner. *)
 From Coq Require Import List NArith ZArith Bool.
-From LS Require Import Base.Sx Conc.Locks.
+From LS Require Import Base.Sx Conc.Locks Conc.Registry.
 Import ListNotations.
 
 Definition res_of (n : N) : res :=
@@ -50,3 +50,20 @@ Definition conc_trace_ok (x : sx) : sx :=
 (** the discipline check of the nine transcribed operations (constant input) *)
 Definition conc_progs_checked (x : sx) : sx :=
   sxB (forallb (check h0 gh0) all_progs).
+
+(** model entry for the registry: input [init; sched]
+      init  = [[path inst] ...]                      the slice before the schedule
+      sched = [[1 cid path inst] | [2 cid] | [3 path] ...]   micro-steps in the order they took effect
+    output [[[path inst] ...]; [[cid outcome] ...]]  the final slice and the outcome of every
+    RegisterDB call in the order the calls were decided (0 registered, 1 already, 2 duplicate) *)
+Definition mstep_of (x : sx) : mstep :=
+  match asN (nthx 0 x) with
+  | 1%N => MFirst (N.to_nat (asN (nthx 1 x))) (N.to_nat (asN (nthx 2 x))) (N.to_nat (asN (nthx 3 x)))
+  | 2%N => MSecond (N.to_nat (asN (nthx 1 x)))
+  | _ => MUnreg (N.to_nat (asN (nthx 1 x)))
+  end.
+Definition sx_pair (e : nat * nat) : sx := SL [sxN (N.of_nat (fst e)); sxN (N.of_nat (snd e))].
+Definition conc_register (x : sx) : sx :=
+  let init := map (fun e => (N.to_nat (asN (nthx 0 e)), N.to_nat (asN (nthx 1 e)))) (asL (nthx 0 x)) in
+  let s := rrun (map mstep_of (asL (nthx 1 x))) (rinit init) in
+  SL [SL (map sx_pair (dbs s)); SL (map sx_pair (rev (outcomes s)))].
